@@ -17,7 +17,7 @@ RULE = ("cases = (cone, value set, eps, predicted index set); gap oracle = min_n
         "non-trivial = value set with >=1 dominated point with positive gap, eps within a factor 2 of a critical distance, or a "
         "predicted set that is neither the truth nor empty")
 ASSUMPTIONS = ["eps is drawn at relative distance >= 1% from every critical coverage distance / gap; decisions within 1e-3*scale of a "
-               "critical value are indeterminate (solver band, as C10)", "cones pointed and solid with unit normals"]
+               "critical value are indeterminate (solver band, as C10)", "cones pointed and solid; rows need not be unit vectors (hypervolume component: unit rows, K<=3)"]
 
 
 def _W(spec):
@@ -368,7 +368,10 @@ def st_values(draw, m, nmax=8):
 
 
 def st_unit_cone(m=None):
-    return st.one_of(gen.st_bundled(m), gen.st_diag_cone(m))
+    # despite the historical name: bundled and unit-normal cones plus matrices with non-unit rows (dyadic, integer
+    # dtype, rescaled rows, sheared) - the gap / coverage definitions do not depend on how the cone is written
+    return st.one_of(gen.st_bundled(m), gen.st_diag_cone(m), gen.st_diag_cone(m), gen.st_dyadic_cone(m, 2), gen.st_int_cone(m, 2),
+                     gen.st_rescaled_cone(m, 2), gen.st_skew_cone(m, 1))
 
 
 @st.composite
